@@ -31,3 +31,21 @@ Proof. exact B_linear. Qed.
    on an output buffer, is about 36 MB *)
 Example C13_example_value : B 1000000 4 9 = 36256500.
 Proof. vm_compute. reflexivity. Qed.
+
+(* The hypothesis OB of C13_bound_partial can be discharged for the buffers the compressor really
+   allocates: do_transmit() allocates (size + 3) / 4 words where size is the value returned by encode(),
+   i.e. out_expect_len; for the model of encode() (Enc/EncodeModel.v, tied to the C byte for byte) that
+   value is below 2^25 for EVERY block, input and cluster factor - a fixed number that mentions neither
+   the input length nor the ratio (the real maximum is about 1.1 MB; the theorem only needs a constant). *)
+From LBZ Require Enc.EncModel Enc.EncodeModel Enc.EncodeProofs.
+
+Theorem C13_output_buffer_bounded :
+  forall cf blk idx crc, (1 <= cf)%N -> EncodeProofs.block_ok blk ->
+    exists r, EncodeModel.encode_block_full cf blk idx crc = EncodeModel.EOk r /\ (EncodeModel.e_expect_len r < 2 ^ 25)%N.
+Proof.
+  intros cf blk idx crc Hcf Hb.
+  destruct (EncodeProofs.encode_block_full_ok cf blk idx crc Hcf Hb) as [r [E F]].
+  exists r. split; [exact E|].
+  pose proof (EncodeProofs.ef_aligned _ _ _ _ _ F) as A. pose proof (EncodeProofs.ef_small _ _ _ _ _ F) as S.
+  rewrite A in S. change (2 ^ 28)%N with (8 * 2 ^ 25)%N in S. apply N.mul_lt_mono_pos_l in S; [exact S|reflexivity].
+Qed.
